@@ -50,7 +50,7 @@ def canon(e, keep_sites=False):
         s = "%s(%s)" % (last2(e[1]), ",".join(canon(a, keep_sites) for a in e[2]))
         return s + ("@%d" % e[3] if keep_sites else "")
     if k == "f":
-        return "%s.%d" % (canon(e[1], keep_sites), e[2])
+        return "%s.%s" % (canon(e[1], keep_sites), e[2])
     if k == "dc":
         return "(%s as %s)" % (canon(e[1], keep_sites), e[2])
     if k == "agg":
